@@ -158,9 +158,16 @@ def describe(ev, bad):
     i, j, clause = bad[0]
     its = ev["items"]
 
+    def abbr(x):
+        if isinstance(x, list) and x and isinstance(x[0], list):
+            return [abbr(y) for y in x[:6]] + (["... %d components" % len(x)] if len(x) > 6 else [])
+        if isinstance(x, list) and len(x) > 24:
+            return x[:8] + ["... %d bytes ..." % len(x)] + x[-8:]
+        return x
+
     def short(it):
-        s = json.dumps({k: it[k] for k in ("v", "enc", "dec", "sz", "ends", "ref") if k in it}, separators=(",", ":"))
-        return s if len(s) < 400 else s[:400] + "..."
+        return json.dumps({k: abbr(it[k]) for k in ("v", "enc", "dec", "sz", "ends", "ref") if k in it},
+                          separators=(",", ":"))
     out = "clause %s schema %s item %s" % (clause, ev["sch"] if len(ev["sch"]) < 8 else ev["sch"][:8] + ["..."],
                                            short(its[i - 1]))
     if j:
@@ -300,10 +307,12 @@ def run(prop, tier, seed):
                          "subnormals, infinities, quiet/signalling NaNs of both signs)",
             "flt-rand": "seeded random bit patterns (uniform, near 1.0, NaN/inf, subnormal, tiny mantissa)",
             "text-all6 / text-pairs6": "all 1093 texts over {00,'a','b'} of length <= 6: sorted list and ALL pairs",
-            "text-maxlen": "lengths maxlen-2..maxlen+2 with {0,'z'} at the four bytes around the cut, all-pad texts, "
-                           "maxlen+70000; every text ends at a PROT_NONE page after min(len,maxlen) bytes",
-            "text-pads / text-rand": "random texts with embedded/trailing pads; random zero-free texts incl. lengths "
-                                     "around 256 and up to 4300, extensions and padded twins",
+            "text-maxlen": "lengths maxlen-2..maxlen+2 with {0,'z'} at the four bytes around the cut, twins differing "
+                           "only in the last kept / first cut byte, all-pad texts, maxlen+70000; every text (of every "
+                           "stratum) ends at a PROT_NONE page after min(len,maxlen) bytes",
+            "text-pads / text-rand": "random texts over {00,'a'..'d'} with embedded/trailing pads; random zero-free "
+                                     "texts (all byte values) incl. lengths around 256 and up to 4300, extensions "
+                                     "and padded twins",
             "tuple-rand": "random schemas of 2..5 components of all types, correlated components, fresh/reset/grown encoders",
             "grow": "keys of 240..390 components crossing the 256-byte internal buffer (and 512, 1024, ...) at every "
                     "alignment; fresh, reset and previously grown encoders; ref = components encoded alone by fresh encoders",
